@@ -3,6 +3,7 @@ package crashkit10
 import (
 	"bytes"
 	"crypto/sha256"
+	"crypto/sha512"
 	"encoding/hex"
 	"encoding/json"
 	"fmt"
@@ -110,14 +111,17 @@ func ObserveDir(root string, s *Script, sizes map[int][]int64) string {
 			mode = "ro"
 		}
 		switch {
-		case nm == "L":
+		case nm == "L" || nm == "LT":
 			var l struct {
 				V string `json:"imageLayoutVersion"`
 			}
-			if json.Unmarshal(data, &l) == nil && l.V == "1.0.0" {
-				toks = append(toks, "F:L=ok")
-			} else {
-				toks = append(toks, "F:L=bad")
+			switch {
+			case len(data) == 0:
+				toks = append(toks, "F:"+nm+"=empty")
+			case json.Unmarshal(data, &l) == nil && l.V == "1.0.0":
+				toks = append(toks, "F:"+nm+"=ok")
+			default:
+				toks = append(toks, "F:"+nm+"=bad")
 			}
 		case nm == "I" || nm == "IT":
 			toks = append(toks, "F:"+nm+"="+describeIndex(data, n))
@@ -145,8 +149,8 @@ func describeIndex(data []byte, n *Namer) string {
 	var es []string
 	for _, m := range idx.Manifests {
 		id := "?"
-		if strings.HasPrefix(m.Digest, "sha256:") {
-			if v, ok := n.ByHex[m.Digest[len("sha256:"):]]; ok {
+		if i := strings.IndexByte(m.Digest, ':'); i > 0 {
+			if v, ok := n.ByHex[m.Digest[i+1:]]; ok {
 				id = strconv.Itoa(v)
 			}
 		}
@@ -165,19 +169,37 @@ func describeIndex(data []byte, n *Namer) string {
 	return "[" + strings.Join(es, ",") + "]"
 }
 
-// BlobFiles lists blobs/sha256/* with whether the bytes hash to the name.
+// BlobFiles lists blobs/<alg>/* (hex names) with whether the bytes hash to the name.
 func BlobFiles(root string) (names []string, badNames []string) {
-	ents, _ := os.ReadDir(filepath.Join(root, "blobs", "sha256"))
-	for _, e := range ents {
-		if e.IsDir() {
-			continue
-		}
-		data, err := os.ReadFile(filepath.Join(root, "blobs", "sha256", e.Name()))
-		h := sha256.Sum256(data)
-		names = append(names, e.Name())
-		if err != nil || hex.EncodeToString(h[:]) != e.Name() {
-			badNames = append(badNames, e.Name())
+	for _, alg := range []string{"sha256", "sha512"} {
+		ents, _ := os.ReadDir(filepath.Join(root, "blobs", alg))
+		for _, e := range ents {
+			if e.IsDir() {
+				continue
+			}
+			data, err := os.ReadFile(filepath.Join(root, "blobs", alg, e.Name()))
+			var sum string
+			if alg == "sha512" {
+				h := sha512.Sum512(data)
+				sum = hex.EncodeToString(h[:])
+			} else {
+				h := sha256.Sum256(data)
+				sum = hex.EncodeToString(h[:])
+			}
+			names = append(names, e.Name())
+			if err != nil || sum != e.Name() {
+				badNames = append(badNames, e.Name())
+			}
 		}
 	}
 	return
+}
+
+// BlobPath is blobs/<alg>/<hex> of a digest string.
+func BlobPath(root, dgst string) string {
+	i := strings.IndexByte(dgst, ':')
+	if i < 0 {
+		return filepath.Join(root, "blobs", "invalid", dgst)
+	}
+	return filepath.Join(root, "blobs", dgst[:i], dgst[i+1:])
 }
